@@ -148,7 +148,7 @@ def main(tier):
     json.dump({'chunk': 100, 'recs': recs}, open(rf, 'w'))
     r = V.tlc(RV, os.path.join(V.SPEC, 'avoid', 'RouteValid.cfg'), env={'VALIDRECS': rf}, timeout=3000, cont=True, mem='24g')
     ev.add_tlc('RouteValid over %d (scene, connector) records' % len(recs), r)
-    nontriv = sum(int(m.group(2)) for m in re.finditer(r'<<"STAT", "rv", (\d+), (\d+)>>', r.out))
+    nontriv = sum(v[0] for v in V.stat(r.out, 'rv'))
     suspects = []
     for inv, st in V.violating_states(r):
         for (i, t) in st.get('bad', []):
